@@ -18,9 +18,13 @@ let parse_cfg cfg = match cfg with
 let zi s = z_of_int (int_of_string s)
 let ni s = nat_of_int (int_of_string s)
 
-let parse_op toks = match toks with
+(* [cur] = the container selected at this point (needed for the operations that are no-ops of the model) *)
+let parse_op ?(cur = false) toks = match toks with
   | ["sel"; b] -> OSel (b = "1")
+  | ["selfassign"] -> OSel cur                     (* x = x: operator= returns at once; nothing may change *)
   | ["app"; k; v] -> OApp (zi k, zi v)
+  | ["appn"; _; k; v] -> OApp (zi k, zi v)         (* the 0 / 2..7-argument forms of PoolList::append: same effect *)
+  | ["rmval"; p] -> ORemAt (ni p)                  (* remove(const T&) / remove(const V&) through the recorded address *)
   | ["pre"; k; v] -> OPre (zi k, zi v)
   | ["insat"; p; k; v] -> OInsAt (ni p, zi k, zi v)
   | ["rmat"; p] -> ORemAt (ni p)
@@ -82,6 +86,15 @@ let hdr_int k hp h =
                     (String.concat "/" (List.init cap (fun b -> String.concat "." (ids_of_chain d b))))
     end else "-" in
   Printf.sprintf "f=%s b=%s s=%s" (join "," slot_str fr) (join "," (fun s -> string_of_int (int_of_nat s)) h.hd_blocks) body
+
+let ptr_str = function PNull -> "0" | PEnd false -> "E0" | PEnd true -> "E1" | PItem sl -> slot_str sl
+let ptrs_of k hp h =
+  let its = lelems hp h in
+  Printf.sprintf "b=%s,l=%s,n=%d;%s" (ptr_str h.hd_begin) (ptr_str h.hd_last) (int_of_nat h.hd_size)
+    (String.concat "," (List.map (fun n ->
+         let c = hget hp n.n_slot in
+         Printf.sprintf "%d:%s>%s%s" (int_of_nat n.n_id) (ptr_str c.c_prev) (ptr_str c.c_next)
+           (if is_hashk k then Printf.sprintf ":%s>%s" (slot_str c.c_cell) (ptr_str c.c_nextcell) else "")) its))
 
 (* ---- parsing observations back (judge mode) ---- *)
 let parse_slot s = match String.split_on_char '.' s with
@@ -149,19 +162,35 @@ let explain kd st o now ev =
 let () =
   let mode = Sys.argv.(1) and file = Sys.argv.(2) in
   if mode = "model" then
-    run_cases file (fun cfg -> let (k, cap) = parse_cfg cfg in (k, cap, init k cap))
-      (fun (k, cap, st) _ toks ->
-         let (st', ev) = step k cap st (parse_op toks) in
-         emit (Printf.sprintf "n=%d stale=0 findbad=0 | A=%s B=%s | ev=%s | A:%s B:%s"
+    (* the node-level model; for List, PoolList, HashMap, HashSet and PoolMap the cell machine runs alongside: its
+       own rendering of the line must be the model's (proved: cell_machine_trace) and it supplies the pointer section *)
+    run_cases file (fun cfg -> let (k, cap) = parse_cfg cfg in (k, cap, init k cap, linit cap))
+      (fun (k, cap, st, lst) _ toks ->
+         let o = parse_op ~cur:st.s_cur toks in
+         let (st', ev) = step k cap st o in
+         let line = Printf.sprintf "n=%d stale=0 findbad=0 | A=%s B=%s | ev=%s | A:%s B:%s"
                  (int_of_nat (length (elems (sel st'))))
                  (join "," node_str (elems st'.s_a)) (join "," node_str (elems st'.s_b))
-                 (join "," event_str ev) (cont_int st'.s_a) (cont_int st'.s_b));
-         (k, cap, st'))
+                 (join "," event_str ev) (cont_int st'.s_a) (cont_int st'.s_b) in
+         if heap_kind k then begin
+           let (lst', lev) = lstep k cap lst o in
+           let ob = lobserve lst' in
+           let lline = Printf.sprintf "n=%d stale=0 findbad=0 | A=%s B=%s | ev=%s | A:%s B:%s"
+               (int_of_nat (lsel lst').hd_size)
+               (join "," node_str ob.ob_a) (join "," node_str ob.ob_b)
+               (join "," event_str lev) (hdr_int k lst'.l_heap lst'.l_a) (hdr_int k lst'.l_heap lst'.l_b) in
+           emit (Printf.sprintf "%s | P A:%s B:%s%s" line (ptrs_of k lst'.l_heap lst'.l_a) (ptrs_of k lst'.l_heap lst'.l_b)
+                   (if lline = line then "" else " CELL-MACHINE-DIFFERS: " ^ lline));
+           (k, cap, st', lst')
+         end else begin
+           emit (line ^ " | P A:- B:-");
+           (k, cap, st', lst)
+         end)
       (fun _ -> ())
   else if mode = "heap" then
     run_cases file (fun cfg -> let (k, cap) = parse_cfg cfg in (k, cap, linit cap))
       (fun (k, cap, st) _ toks ->
-         let (st', ev) = lstep k cap st (parse_op toks) in
+         let (st', ev) = lstep k cap st (parse_op ~cur:st.l_cur toks) in
          let ob = lobserve st' in
          emit (Printf.sprintf "n=%d stale=0 findbad=0 | A=%s B=%s | ev=%s | A:%s B:%s"
                  (int_of_nat (lsel st').hd_size)
@@ -175,7 +204,7 @@ let () =
     run_cases file (fun cfg -> let (k, _) = parse_cfg cfg in pending := None; (k, ss_init, 0, None))
       (fun (k, st, i, verdict) _ toks ->
          match toks with
-         | "op" :: rest -> pending := Some (parse_op rest, String.concat " " rest); (k, st, i, verdict)
+         | "op" :: rest -> pending := Some (parse_op ~cur:st.ss_cur rest, String.concat " " rest); (k, st, i, verdict)
          | "crash" :: rest ->
            let v = match verdict with None -> Some (Printf.sprintf "fail %d the implementation ended with `%s`" i (String.concat " " rest)) | v -> v in
            (k, st, i, v)
